@@ -30,6 +30,12 @@ def gen(tier, rng):
     yield "tp z20,d8,o,rel,idle6200,o,d4,o,d3,o", {"burst": 8, "phase": "after-idle-retirement"}
     if tier != "quick":
         yield "tp z20,d30,o,rel,idle6200,o,d6,o", {"burst": 30, "phase": "after-idle-retirement"}
+    # the real pool under the controllable runtime (hook H2): seeded schedules, virtual time; every trace is
+    # replayed in lock-step through the model
+    ns = 40 if tier == "quick" else 600
+    for sc in ("q,d5,o", "q,d8,o", "d3,o,d3,o", "q,d5,o,rel,o,d6,o", "d6,o", "q,d4,o,d1,o", "q,d16,o"):
+        for sd in range(ns):
+            yield "tps %d %s" % (sd * 13 + len(sc), sc), {"scheduled": sc}
     for _ in range(2 if tier == "quick" else 8):
         for n in (1, 4, 5, 16, 64):
             yield "bs u %d %d" % (n, rng.choice([1, 3])), {"server_burst": n}
@@ -37,7 +43,34 @@ def gen(tier, rng):
             yield "bs t %d 2" % n, {"server_burst": n}
 
 
+def oracle_tps(case, obs):
+    o = tpbase.tps_obs(obs)
+    if o is None:
+        return "FAIL implementation: " + obs[:200]
+    if len(set(o["started"])) != len(o["started"]):
+        return "FAIL a task was run twice"
+    # replay the script: at every observation before the first release, every dispatched task must have started
+    dispatched = 0
+    released = False
+    k = 0
+    for op in case.split(" ")[2].split(","):
+        if op.startswith("d") and op != "drop":
+            dispatched += int(op[1:])
+        elif op == "rel":
+            released = True
+        elif op == "o" and k < len(o["obs"]):
+            todo, waiting, active = o["obs"][k]
+            k += 1
+            if todo != 0:
+                return "FAIL %d task(s) still queued at quiescence although no running task has to finish for them (%d dispatched)" % (todo, dispatched)
+    if len(o["started"]) != dispatched:
+        return "FAIL %d tasks dispatched, %d started" % (dispatched, len(o["started"]))
+    return "OK"
+
+
 def oracle(case, obs):
+    if case.startswith("tps "):
+        return oracle_tps(case, obs)
     f = case.split(" ")
     if f[0] == "bs":
         m = re.match(r"answered=(\d+) of=(\d+) wrong=(\d+) delivered=(\d+)", obs)
@@ -72,5 +105,7 @@ def project(o):
 
 
 def nontrivial(case, mo):
+    if case.startswith("tps "):
+        return True
     m = re.search(r"d(\d+)", case)
     return (m and int(m.group(1)) > 4) or case.startswith("bs") and int(case.split(" ")[2]) > 4
